@@ -145,7 +145,7 @@ def check_value(p, v, cfg_name, col):
                       bucket="decode")
     if d1[0] == "exc":
         c = case()
-        if amb:
+        if amb and isinstance(d1[1], ValueError):
             col.violation("union-fixpoint", c, f"decode raised {tl.exc_name(d1[1])} for ambiguous union", bucket="decode-raises")
         else:
             col.violation("decode-succeeds", c, f"codec({mat.root_expr}).decode({b1!r:.140}) raised {tl.exc_name(d1[1])}: {d1[1]}",
